@@ -488,6 +488,10 @@ def logmessage(ck):
         else:
             nodes = [n for n in fn.calls() if n.get("ck") == "member" and name_is(n.get("callee"), ("insert", "unite")) and is_this_field(n.get("obj"), LM + "::" + field) and arg_is_param(n, 0, fn, 0)]
         ok = len(nodes) == 1 and g3.must_pass(set(g3.sites_of_nodes(nodes)))
+        if not ok and how == "merge" and len(nodes) == 1 and fn.params:
+            # merging an empty set changes nothing: a path that skips the merge is fine exactly when the argument is empty
+            emp = lambda n_: is_call(n_, ("isEmpty", "empty")) and is_ref_to(skip_copies(n_).get("obj"), fn.params[0]["decl"])
+            ok = g3.must_pass(set(g3.sites_of_nodes(nodes)), keep=g3.projector(atom_eq(emp, False)))
         ck.ob("C01-O6", sitestr(fn), ok, "%s() %ss its argument to %s on every path" % (name, how, field) if ok else "%s() no longer %ss its argument to %s on every path" % (name, how, field),
               key="LogMessage::%s|effect" % name)
         others = [w for w in field_writes(F, LM + "::m_formattedMessage") + field_writes(F, LM + "::m_attributes") if w[0].id == fn.id and w[1].get("id") not in [skip_copies(n.get("args", [{}])[0]).get("id") if n.get("ck") == "operator" else skip_copies(n.get("obj")).get("id") for n in nodes]]
@@ -550,6 +554,42 @@ def listdiscipline(ck):
               "append(): appended-when-non-null=%s, dropped-when-null=%s" % (a, b), key="Pipeline::append|effect")
     else:
         ck.ob("C01-O7", sitestr(ap), False, "append() no longer appends its argument to m_handlers", key="Pipeline::append|effect")
+    # the list forms: append({a, b, c}) and Pipeline({a, b, c}[, scoped]) take every element, in order; a null element at most
+    # drops itself, never the elements behind it
+    for lf in [f_ for f_ in F.fn_all(P + "::append") + F.fn_all(P + "::Pipeline") if f_.body is not None and f_.params and "initializer_list" in (f_.params[0].get("type") or "")]:
+        ck.touch(lf)
+        lg = Graph(lf)
+        short = "Pipeline(list)" if lf.d.get("kind") == "ctor" else "append(list)"
+        pd = lf.params[0]["decl"]
+        bulk = [n for n in lf.calls() if n.get("ck") in ("member", "operator") and name_is(n.get("callee"), ("append", "operator+=", "operator<<", "operator=", P + "::append")) and
+                any(x.get("k") == "ref" and x.get("decl") == pd for a in n.get("args", []) for x in walk(a))]
+        bulk_init = [i for i in lf.inits if i.get("member") == P + "::m_handlers" and isinstance(i.get("e"), dict) and any(x.get("k") == "ref" and x.get("decl") == pd for x in walk(i["e"]))]
+        loops_ = [l for l in find_loops(lf) if l.get("k") == "rangefor" and is_ref_to(skip_copies(l.get("range")), pd)]
+        if bulk_init or (bulk and lg.must_pass(set(lg.sites_of_nodes(bulk)))):
+            ck.ob("C01-O7", sitestr(lf), True, "%s hands the whole list over in one step" % short, key="Pipeline::%s|all-elements" % short)
+        elif len(loops_) == 1:
+            loop_ = loops_[0]
+            lv_ = decl_of_loopvar(loop_)
+            isn = lambda n_: (is_call(n_, "isNull") and is_ref_to(skip_copies(n_).get("obj"), lv_)) or None
+            def atom_null(val):
+                def a_(n_):
+                    if is_call(n_, "isNull") and is_ref_to(skip_copies(n_).get("obj"), lv_):
+                        return val
+                    if n_.get("k") == "ref" and n_.get("decl") == lv_:
+                        return not val
+                    return None
+                return a_
+            cs_ = lg.site_of(loop_["desugar"]["cond"])
+            ls_ = lg.site_of(loop_["desugar"]["loopVarStmt"])
+            adds = [n for n in lf.calls() if name_is(n.get("callee"), ("append", "push_back", "operator<<", "operator+=", P + "::append")) and any(is_ref_to(unwrap_ptr(skip_copies(a)), lv_) for a in n.get("args", []))]
+            goes_on = all(lg.postdominated(ls_, {cs_}, keep=lg.projector(atom_null(v))) for v in (True, False))
+            added = bool(adds) and lg.exit not in lg.reach([ls_], blocked=set(lg.sites_of_nodes(adds)) , keep=lg.projector(atom_null(False)), include_start=False) and \
+                cs_ not in lg.reach([ls_], blocked=set(lg.sites_of_nodes(adds)), keep=lg.projector(atom_null(False)), include_start=False)
+            ck.ob("C01-O7", sitestr(lf, loop_), goes_on and added, "%s: every non-null element is appended and the loop goes on to the next element whatever the element was" % short if (goes_on and added) else
+                  "%s: %s" % (short, "an element (a null one, say) ends the loop: the handlers listed behind it are silently dropped" if not goes_on else "a non-null element is not appended on every path"),
+                  key="Pipeline::%s|all-elements" % short)
+        else:
+            ck.ob("C01-O7", sitestr(lf), None, "%s: neither a bulk hand-over nor one loop over the list" % short, key="Pipeline::%s|all-elements" % short)
     # operator<< delegates to append
     op = F.fn(P + "::operator<<")
     ck.touch(op)
